@@ -1,5 +1,7 @@
 import VaxisModel.Driver.Common
 import VaxisModel.Model.Conc
+import VaxisModel.Model.ConcSession
+import VaxisModel.Gen.Conc
 
 /-! Driver for C10.  One op line per case:
 ```
@@ -7,6 +9,7 @@ post seed=… posters=… m=… q=… keys=…  ⇥ posters=<b> close=<b> panic=
 suspend …                              ⇥ <ok|suspend-hang|…> posters=<b> close=<b> panic="…" leak=<n>
 fullclose … | sigclose … | dblclose …  ⇥ <outcome> … leak=<n>
 race <group>                           ⇥ races=<n> …
+cycles seed=… ops=SRSRC gate=g keys=k q=…  ⇥ S:ret,done R S:ret,done … (one observation per call of the main goroutine)
 ```
 model-canon: what the LTS of `Model/Conc.lean` allows (shutdown completes and nothing is left when the
 application keeps consuming and nobody else closes; the three defect schedules may hang);
@@ -96,6 +99,27 @@ def step (line : String) : String :=
       else if leak != some "0" then s!"FAIL {leak.getD "?"} library goroutine(s) left after Suspend/Resume cycles and Close"
       else "ok"
     s!"{mc}\t{ic}\t{verdict}"
+  | "cycles" :: rest =>
+    -- the session run on the shutdown LTS, configured from the source facts (statement order of
+    -- Suspend, Resume clearing `suspended`), under the scheduling policy the gate stands for
+    let ops := ((kv rest "ops").getD "").toList
+    let gate := ((kv rest "gate").bind String.toNat?).getD 0
+    let keys := ((kv rest "keys").bind String.toNat?).getD 0
+    let q := ((kv rest "q").bind String.toNat?).getD 0
+    let s0 : SSys := { qcap := if q == 0 then 1024 else q, queueLen := 1, consumer := true, inbuf := List.replicate keys (some 1),
+                       da1First := da1FirstOf Gen.Conc.skeleton_Suspend, resumeClears := resumeClearsOf Gen.Conc.skeleton_Resume }
+    let pol : Policy := if gate == 1 then .libFirst else .callerFirst
+    let mc := " ".intercalate (session pol (400 + 40 * keys) s0 ops)
+    -- the oracle (independent of the model): every Suspend and every Close returns and leaves no
+    -- parser / input goroutine behind; every Resume succeeds
+    let bad := fi.find? fun o => !(o == "R" || o == "S:ret,done" || o == "C:ret,done")
+    let verdict := match bad with
+      | some o =>
+        if o.endsWith "hang,alive" then s!"FAIL {if o.startsWith "S" then "Suspend" else "Close"} did not return within the bound ({o}, session {String.ofList ops} gate {gate})"
+        else if o.endsWith "ret,alive" then s!"FAIL the parser / input goroutine started by the library is still alive after {if o.startsWith "S" then "Suspend" else "Close"} returned ({o}, session {String.ofList ops})"
+        else s!"FAIL {o} (session {String.ofList ops})"
+      | none => if fi.length == ops.length then "ok" else s!"FAIL session {String.ofList ops} stopped early: {impl}"
+    s!"{mc}\t{impl}\t{verdict}"
   | "fullclose" :: _ =>
     -- the LTS has a stuck state here (Witness/F53): both outcomes are runs of the model
     let out := fi.headD "?"
